@@ -57,8 +57,33 @@ fn fnv(data: &[u8]) -> u64 {
     h
 }
 
-async fn compare<S: Storage>(st: &S, m: &Model, ids: &BTreeSet<u64>, mentioned: &BTreeSet<String>, after: &str, reads: &mut u64) -> Result<(), Fail> {
+/// `only`: restrict the per-keyspace reads to one keyspace (the oracle must not touch
+/// every keyspace after every call: a backend may derive answers from what was accessed).
+async fn compare<S: Storage>(st: &S, m: &Model, ids: &BTreeSet<u64>, mentioned: &BTreeSet<String>, after: &str, reads: &mut u64, only: Option<&str>) -> Result<(), Fail> {
+    // the keyspace list is asked FIRST, before this oracle touches the other keyspaces: a
+    // backend that derives the list from what has been accessed so far must not be helped
+    let list: BTreeSet<String> = st
+        .get_keyspace_list()
+        .await
+        .map_err(|e| Fail { what: format!("get_keyspace_list-error:after-{after}"), detail: json!(e.to_string()) })?
+        .into_iter()
+        .collect();
+    *reads += 1;
+    for (ks, e) in m {
+        if !e.is_empty() && !list.contains(ks) {
+            return Err(Fail { what: format!("keyspace-with-entries-not-listed:after-{after}"), detail: json!({"keyspace": ks, "listed": list}) });
+        }
+    }
+    for l in &list {
+        // reads by this oracle count as "passing the name to a call"
+        if !mentioned.contains(l) && !KS.contains(&l.as_str()) {
+            return Err(Fail { what: format!("never-used-keyspace-listed:after-{after}"), detail: json!({"keyspace": l}) });
+        }
+    }
     for ks in KS {
+        if only.map_or(false, |o| o != ks) {
+            continue;
+        }
         let exp = m.get(ks).cloned().unwrap_or_default();
         let mut got: Vec<_> = st
             .iter_metadata(ks)
@@ -110,24 +135,6 @@ async fn compare<S: Storage>(st: &S, m: &Model, ids: &BTreeSet<u64>, mentioned: 
                 what: format!("multi_get-differs:after-{after}"),
                 detail: json!({"keyspace": ks, "got_ids": g.iter().map(|x| x.0).collect::<Vec<_>>(), "want_ids": w.iter().map(|x| x.0).collect::<Vec<_>>()}),
             });
-        }
-    }
-    let list: BTreeSet<String> = st
-        .get_keyspace_list()
-        .await
-        .map_err(|e| Fail { what: format!("get_keyspace_list-error:after-{after}"), detail: json!(e.to_string()) })?
-        .into_iter()
-        .collect();
-    *reads += 1;
-    for (ks, e) in m {
-        if !e.is_empty() && !list.contains(ks) {
-            return Err(Fail { what: format!("keyspace-with-entries-not-listed:after-{after}"), detail: json!({"keyspace": ks, "listed": list}) });
-        }
-    }
-    for l in &list {
-        // reads by this oracle count as "passing the name to a call"
-        if !mentioned.contains(l) && !KS.contains(&l.as_str()) {
-            return Err(Fail { what: format!("never-used-keyspace-listed:after-{after}"), detail: json!({"keyspace": l}) });
         }
     }
     Ok(())
@@ -254,7 +261,9 @@ impl Driver {
             self.calls += 1;
             self.recount();
             let ids = self.ids.clone();
-            compare(st, &self.model, &ids, &self.mentioned, call, &mut self.reads).await?;
+            // half of the time only the keyspace just used is read back (plus the keyspace list)
+            let only = if self.rng.gen_bool(0.5) { Some(ks) } else { None };
+            compare(st, &self.model, &ids, &self.mentioned, call, &mut self.reads, only).await?;
         }
         Ok(())
     }
@@ -303,7 +312,9 @@ async fn c17_sequence(backend: Backend, seed: u64, i: u64, root: &Path) -> CaseO
                     if seg > 0 {
                         reopens += 1;
                         d.trace.push(json!("close + reopen"));
-                        r = compare(&st, &d.model, &ids, &d.mentioned, "reopen", &mut d.reads).await;
+                        if d.rng.gen_bool(0.5) {
+                            r = compare(&st, &d.model, &ids, &d.mentioned, "reopen", &mut d.reads, None).await;
+                        }
                     }
                     if r.is_ok() {
                         r = d.drive(&st, steps).await;
@@ -323,7 +334,9 @@ async fn c17_sequence(backend: Backend, seed: u64, i: u64, root: &Path) -> CaseO
                         if seg > 0 {
                             reopens += 1;
                             d.trace.push(json!("close + reopen"));
-                            r = compare(&st, &d.model, &ids, &d.mentioned, "reopen", &mut d.reads).await;
+                            if d.rng.gen_bool(0.5) {
+                            r = compare(&st, &d.model, &ids, &d.mentioned, "reopen", &mut d.reads, None).await;
+                        }
                         }
                         if r.is_ok() {
                             r = d.drive(&st, steps).await;
